@@ -74,7 +74,7 @@ def post(ctx, rc, bpfdir):
     agg["bpf_object_dir"] = bpfdir
     agg["bpf_build_ok"] = all(os.path.exists(os.path.join(bpfdir, o + e)) for o in ("antispoof", "qos_ratelimit", "nat44", "dhcp_fastpath")
                               for e in (".o", ".native"))
-    ev = os.path.join(verif.VERIF, "evidence", ctx.pid + ".json")
+    ev = verif.evidence_path(ctx)
     if agg["kernel_native_disagree"] and rc == 0:
         rp = verif.write_replay(ctx, "%d-kernel-native" % ctx.seed, {"property": ctx.pid, "kind": "broken-obligation",
              "no_longer_checks": ["corr:kernel test-run and native run disagree"], "first": first})
